@@ -1,5 +1,6 @@
 import SqVerif.Gen.SkeletonDyn
 import SqVerif.SkelDynLemmasTrans
+import SqVerif.SkelDynPathsB
 import SqVerif.Props.C03Dyn
 /-!
 # C03 — the dynamic-guard bridge: the code's pointer discipline ⟹ the premises of T03.1′
@@ -427,14 +428,50 @@ def trW : List DEv :=
    .reval .c .self true, .use .c, .use .c,
    .rel [.self, .cap 1, .cap 2]]
 
-def trR : List DEv :=
+/-! The runs of the one-qubit gate are READ OFF the regenerated skeleton (`SkelDynPathsB.dPick`: the shortest path
+that ends normally with the required number of aborted attempts), not written down: how often the method
+dereferences the pointer — the number of `use` events — is not behaviour (caching `self.simQubit` in a local variable
+turns four dereferences into one), and a fixed trace would stop being a path under such a rewrite. -/
+
+/-- number of failed re-validations (= aborted attempts) on a trace -/
+def nFailedReval (tr : List DEv) : Nat :=
+  (tr.filter (fun e => match e with | .reval _ _ false => true | _ => false)).length
+
+def isUseEv : DEv → Bool
+  | .use _ => true
+  | _ => false
+
+/-- what the chooser returns on the source as it is today (documentation; nothing below depends on them) -/
+def trRref : List DEv :=
   [.readPtr .c 1, .acq [.cap 1] false, .reval .c (.cap 1) false, .rel [.cap 1],
    .readPtr .c 1, .acq [.cap 1] false, .reval .c (.cap 1) true, .use .c, .use .c, .use .c,
    .reval .c (.cap 1) true, .readPtr .c 2, .rel [.cap 2]]
 
-def trR2 : List DEv :=
+def trR2ref : List DEv :=
   [.readPtr .c 1, .acq [.cap 1] false, .reval .c (.cap 1) true, .use .c, .use .c, .use .c,
    .reval .c (.cap 1) true, .readPtr .c 2, .rel [.cap 2]]
+
+/-- one aborted attempt (the pointer was found stale: unlock, retry), then the gate -/
+def specR (tr : List DEv) : Bool := nFailedReval tr == 1 && tr.any isUseEv
+/-- the gate at the first attempt -/
+def specR2 (tr : List DEv) : Bool := nFailedReval tr == 0 && tr.any isUseEv
+
+def trR : List DEv := dPickD 2 (dNoTimeout Q__single_gate) .norm specR
+def trR2 : List DEv := dPickD 2 (dNoTimeout Q__single_gate) .norm specR2
+
+/-- position `i` of `tr` is the last of a run of `use` events: there the gate acts on the data -/
+def lastUseAt (tr : List DEv) (i : Nat) : Bool :=
+  (match tr[i]? with | some (.use _) => true | _ => false) &&
+  !(match tr[i + 1]? with | some (.use _) => true | _ => false)
+
+theorem lastUseAt_use (tr : List DEv) (i : Nat) (h : lastUseAt tr i = true) : ∃ hd, tr[i]? = some (.use hd) := by
+  unfold lastUseAt at h
+  cases hi : tr[i]? with
+  | none => simp [hi] at h
+  | some e =>
+    cases e with
+    | use hd => exact ⟨hd, rfl⟩
+    | _ => simp [hi] at h
 
 def idE : St Nat → St Nat := fun σ => σ
 def setRes (r : Res) (v : Nat) : St Nat → St Nat := fun σ x => if x = r then v else σ x
@@ -453,16 +490,16 @@ def exρR : DAsg Nat where
   cap := fun i => if i = 0 then 11 else 10
   hptr0 := fun _ => 1
   hptr := fun _ => 7
-  data := fun i => if i = 9 then [2] else []
-  F := fun i => if i = 9 then bump 2 else idE
+  data := fun i => if lastUseAt trR i then [2] else []
+  F := fun i => if lastUseAt trR i then bump 2 else idE
 
 def exρR2 : DAsg Nat where
   node := fun _ => 99
   cap := fun _ => 12
   hptr0 := fun _ => 4
   hptr := fun _ => 7
-  data := fun i => if i = 4 then [5] else []
-  F := fun i => if i = 4 then bump 5 else idE
+  data := fun i => if lastUseAt trR2 i then [5] else []
+  F := fun i => if lastUseAt trR2 i then bump 5 else idE
 
 def exW : DynRun Nat := ⟨dNoTimeout Q__two_qubit_gate, exρW, trW, .norm⟩
 def exR : DynRun Nat := ⟨dNoTimeout Q__single_gate, exρR, trR, .norm⟩
@@ -475,14 +512,29 @@ theorem exW_txnA : exW.txnA =
      .val 1 11 idE, .use 1 [] 11 idE, .val 1 11 idE, .rep 1 10 (setRes 1 0), .rep 1 10 (setRes 1 0),
      .use 1 [] 10 idE, .use 0 [] 10 idE, .val 0 10 idE, .use 0 [] 10 idE, .use 0 [] 10 idE, .rel 10, .rel 11] := rfl
 
+/-- the translated transactions of the two one-qubit gates, on the reference traces (the traces the chooser
+    returns today): first attempt aborted, second attempt, the gate's effect at the last dereference -/
+def exRref : DynRun Nat :=
+  ⟨dNoTimeout Q__single_gate, { exρR with data := fun i => if lastUseAt trRref i then [2] else [],
+                                          F := fun i => if lastUseAt trRref i then bump 2 else idE }, trRref, .norm⟩
+def exR2ref : DynRun Nat :=
+  ⟨dNoTimeout Q__single_gate, { exρR2 with data := fun i => if lastUseAt trR2ref i then [5] else [],
+                                           F := fun i => if lastUseAt trR2ref i then bump 5 else idE }, trR2ref, .norm⟩
+
 set_option maxRecDepth 100000 in
-theorem exR_txnA : exR.txnA =
+theorem exR_txnA : exRref.txnA =
     [.acq 11, .rel 11, .acq 10, .val 1 10 idE, .use 1 [] 10 idE, .use 1 [] 10 idE, .use 1 [2] 10 (bump 2),
      .val 1 10 idE, .rel 10] := rfl
 
 set_option maxRecDepth 100000 in
-theorem exR2_txnA : exR2.txnA =
-    [.acq 12, .val 4 12 idE, .use 4 [] 12 idE, .use 4 [5] 12 (bump 5), .use 4 [] 12 idE, .val 4 12 idE, .rel 12] := rfl
+theorem exR2_txnA : exR2ref.txnA =
+    [.acq 12, .val 4 12 idE, .use 4 [] 12 idE, .use 4 [] 12 idE, .use 4 [5] 12 (bump 5), .val 4 12 idE, .rel 12] := rfl
+
+-- the chosen traces ARE the reference traces, unless the source was rewritten: then the reference trace is no
+-- longer a path of the regenerated skeleton, or a shorter path with the same specification exists
+example : (trR = trRref ∨ dAccepts (dNoTimeout Q__single_gate) trRref .norm = false ∨ trR.length < trRref.length) ∧
+    (trR2 = trR2ref ∨ dAccepts (dNoTimeout Q__single_gate) trR2ref .norm = false ∨ trR2.length < trR2ref.length) := by
+  decide +kernel
 
 /-! the effects are sound for `exDG` -/
 
@@ -522,15 +574,57 @@ theorem localEff_bump (p d : Res) (hpd : p ≠ d) : LocalEff [p, d] (bump d) := 
     · subst hd; simp [bump, h r hr]
     · simp only [bump, if_neg hd]; exact h r hr
 
-theorem sound_use_bump2 : (AAct.use 1 [2] 10 (bump 2)).Sound exDG :=
-  ⟨localEff_bump 1 2 (by decide), fun _ => rfl, fun _ d hd => (by
-    have : d = 2 := by simpa using hd
-    subst this; rfl), gf_of_local _ _ (localEff_bump 1 2 (by decide))⟩
+theorem exDG_bump (p d : Res) (hpd : p ≠ d) (σ : St Nat) : exDG (bump d σ) p = exDG σ p := by
+  simp [exDG, ptrGuard, bump, hpd]
 
-theorem sound_use_bump5 : (AAct.use 4 [5] 12 (bump 5)).Sound exDG :=
-  ⟨localEff_bump 4 5 (by decide), fun _ => rfl, fun _ d hd => (by
-    have : d = 5 := by simpa using hd
-    subst this; rfl), gf_of_local _ _ (localEff_bump 4 5 (by decide))⟩
+theorem sound_use_bump (p d : Res) (l : Lock) (hpd : p ≠ d) (hd : ∀ σ, exDG σ d = l) :
+    (AAct.use p [d] l (bump d)).Sound exDG :=
+  ⟨localEff_bump p d hpd, exDG_bump p d hpd, fun σ d' hd' => (by
+    have : d' = d := by simpa using hd'
+    subst this; exact hd σ), gf_of_local _ _ (localEff_bump p d hpd)⟩
+
+/-- what an action of a one-qubit gate run may look like, as far as it can be decided: a use with a data footprint
+    goes through a pointer other than the datum, under the lock `l0`; nothing is re-pointed -/
+def shapeOK (d : Res) (l0 : Lock) : AAct Nat → Bool
+  | .use p ds l _ => ds.isEmpty || (l == l0 && p != d)
+  | .rep _ _ _ => false
+  | _ => true
+
+/-- soundness of the effects of a run whose assignment gives effects by the KIND of the event: the identity
+    everywhere, except `bump d` on the datum `d` (guarded statically by `l0`) at selected `use` events -/
+theorem sound_by_kind (ρ : DAsg Nat) (tr : List DEv) (d : Res) (l0 : Lock) (sel : Nat → Bool)
+    (hF : ∀ i, ρ.F i = if sel i then bump d else idE) (hD : ∀ i, ρ.data i = if sel i then [d] else [])
+    (hsel : ∀ i, sel i = true → ∃ hd, tr[i]? = some (.use hd)) (hd : ∀ σ, exDG σ d = l0)
+    (hshape : (transD ρ (dInit [] []) (ts0 ρ) 0 tr).all (shapeOK d l0) = true) :
+    ∀ a, a ∈ transD ρ (dInit [] []) (ts0 ρ) 0 tr → a.Sound exDG := by
+  intro a ha
+  have hok := (List.all_eq_true.1 hshape) a ha
+  obtain ⟨k, e, st', ts', hk, hmem⟩ := mem_transD ρ tr _ _ 0 a ha
+  rw [Nat.zero_add] at hmem
+  rcases transActs_shape ρ st' ts' k e a hmem with ⟨l, rfl⟩ | ⟨l, rfl⟩ | ⟨h1, lr, r, l, rfl, rfl⟩ |
+    ⟨h1, p, l, rfl, rfl⟩ | ⟨h1, new, r, l, rfl, rfl⟩
+  · trivial
+  · trivial
+  · have hs : sel k = false := by
+      cases hs : sel k with
+      | false => rfl
+      | true =>
+        obtain ⟨h2, hu⟩ := hsel k hs
+        rw [hk] at hu
+        cases hu
+    rw [hF k, hs]
+    exact sound_val_idE _ _
+  · cases hs : sel k with
+    | false =>
+      rw [hF k, hD k, hs]
+      exact sound_use_idE _ _
+    | true =>
+      rw [hF k, hD k, hs] at hok ⊢
+      simp only [shapeOK, List.isEmpty_cons, Bool.false_or, Bool.and_eq_true, beq_iff_eq, bne_iff_ne, ne_eq,
+        if_true] at hok
+      obtain ⟨rfl, hpd⟩ := hok
+      exact sound_use_bump p d _ hpd hd
+  · simp [shapeOK] at hok
 
 theorem exW_sound : ∀ a, a ∈ exW.txnA → a.Sound exDG := by
   intro a ha
@@ -540,19 +634,13 @@ theorem exW_sound : ∀ a, a ∈ exW.txnA → a.Sound exDG := by
     rfl | rfl | rfl | rfl | rfl | rfl | rfl | rfl | rfl <;>
   first | trivial | exact sound_val_idE _ _ | exact sound_use_idE _ _ | exact sound_rep
 
-theorem exR_sound : ∀ a, a ∈ exR.txnA → a.Sound exDG := by
-  intro a ha
-  rw [exR_txnA] at ha
-  simp only [List.mem_cons, List.not_mem_nil, or_false] at ha
-  rcases ha with rfl | rfl | rfl | rfl | rfl | rfl | rfl | rfl | rfl <;>
-  first | trivial | exact sound_val_idE _ _ | exact sound_use_idE _ _ | exact sound_use_bump2
+theorem exR_sound : ∀ a, a ∈ exR.txnA → a.Sound exDG :=
+  sound_by_kind exρR trR 2 10 (lastUseAt trR) (fun _ => rfl) (fun _ => rfl) (lastUseAt_use trR) (fun _ => rfl)
+    (by decide +kernel)
 
-theorem exR2_sound : ∀ a, a ∈ exR2.txnA → a.Sound exDG := by
-  intro a ha
-  rw [exR2_txnA] at ha
-  simp only [List.mem_cons, List.not_mem_nil, or_false] at ha
-  rcases ha with rfl | rfl | rfl | rfl | rfl | rfl | rfl <;>
-  first | trivial | exact sound_val_idE _ _ | exact sound_use_idE _ _ | exact sound_use_bump5
+theorem exR2_sound : ∀ a, a ∈ exR2.txnA → a.Sound exDG :=
+  sound_by_kind exρR2 trR2 5 12 (lastUseAt trR2) (fun _ => rfl) (fun _ => rfl) (lastUseAt_use trR2) (fun _ => rfl)
+    (by decide +kernel)
 
 /-- the generated two-qubit gate: a run that merges the target's register into the local node -/
 theorem exW_kind : exW.OfKind "virtualQubit._two_qubit_gate" := ⟨by decide, Q__two_qubit_gate, rfl, rfl⟩
@@ -560,11 +648,17 @@ theorem exW_kind : exW.OfKind "virtualQubit._two_qubit_gate" := ⟨by decide, Q_
 theorem exR_kind : exR.OfKind "virtualQubit._single_gate" := ⟨by decide, Q__single_gate, rfl, rfl⟩
 theorem exR2_kind : exR2.OfKind "virtualQubit._single_gate" := ⟨by decide, Q__single_gate, rfl, rfl⟩
 
-/-- the traces are paths of the regenerated skeletons (checked by the verified acceptor, not by a derivation that
-    would depend on the shape of the generated term) -/
+/-- the traces are paths of the regenerated skeletons: the gate's is checked by the verified acceptor (not by a
+    derivation that would depend on the shape of the generated term), those of the one-qubit gates are chosen among
+    the paths listed by the verified enumerator (so they depend neither on the shape of the term nor on how often
+    the method dereferences the pointer) -/
 theorem exW_env : exW.Env exDG := ⟨dAccepts_sound _ _ _ (by decide +kernel), exW_sound⟩
-theorem exR_env : exR.Env exDG := ⟨dAccepts_sound _ _ _ (by decide +kernel), exR_sound⟩
-theorem exR2_env : exR2.Env exDG := ⟨dAccepts_sound _ _ _ (by decide +kernel), exR2_sound⟩
+theorem exR_env : exR.Env exDG := ⟨(dPickD_sound 2 _ .norm specR (by decide +kernel)).1, exR_sound⟩
+theorem exR2_env : exR2.Env exDG := ⟨(dPickD_sound 2 _ .norm specR2 (by decide +kernel)).1, exR2_sound⟩
+
+-- the chosen runs are what their specification says: one aborted attempt and none, and the pointer is dereferenced
+example : specR trR = true ∧ specR2 trR2 = true :=
+  ⟨(dPickD_sound 2 _ .norm specR (by decide +kernel)).2, (dPickD_sound 2 _ .norm specR2 (by decide +kernel)).2⟩
 
 /-- transaction 0 = the gate (the writer), 1 = a one-qubit gate on the handle the gate re-points (it read the pointer
     before the merge, gets that node's lock after it, finds the pointer stale, releases, retries), 2 = a one-qubit
@@ -585,10 +679,12 @@ def weaveA : List Tid → (Tid → List (AAct Nat)) → ASched Nat
     | [] => weaveA ts rem
     | a :: r => ⟨t, a⟩ :: weaveA ts (fun t' => if t' = t then r else rem t')
 
-/-- the gate starts, the unrelated gate runs inside it, the conflicting gate after it -/
+/-- the gate starts, the unrelated gate runs inside it (in two pieces), the conflicting gate after it; on today's
+    source: `[0, 0, 2, 2, 2, 0 × 10, 2 × 4, 0 × 13, 1 × 9]` -/
 def exDynOrder : List Tid :=
-  [0, 0, 2, 2, 2, 0, 0, 0, 0, 0, 0, 0, 0, 0, 0, 2, 2, 2, 2, 0, 0, 0, 0, 0, 0, 0, 0, 0, 0, 0, 0, 0,
-   1, 1, 1, 1, 1, 1, 1, 1, 1]
+  List.replicate 2 0 ++ List.replicate (exR2.txnA.length / 2) 2 ++ List.replicate 10 0 ++
+  List.replicate (exR2.txnA.length - exR2.txnA.length / 2) 2 ++ List.replicate (exW.txnA.length - 12) 0 ++
+  List.replicate exR.txnA.length 1
 
 def exAS : ASched Nat := weaveA exDynOrder (fun t => (exDynOps.map DynRun.txnA).getD t [])
 
@@ -631,20 +727,55 @@ theorem isInterleavingA_of_bounded (ops : List (List (AAct Nat))) (s : ASched Na
         exact ht this
     rw [this, List.getD_eq_getElem?_getD, List.getElem?_eq_none (Nat.le_of_not_lt ht)]; rfl
 
-set_option maxRecDepth 100000 in
-theorem exAS_interleaving : IsInterleavingA (exDynOps.map DynRun.txnA) exAS := by
-  apply isInterleavingA_of_bounded
-  · decide
-  · intro t ht
-    match t, ht with
-    | 0, _ => rfl
-    | 1, _ => rfl
-    | 2, _ => rfl
-    | n+3, h => exact absurd h (by simp [exDynOps])
+/-- weaving hands out, to every transaction, its first steps: as many as its tid occurs in the order -/
+theorem aacts_weaveA : ∀ (order : List Tid) (rem : Tid → List (AAct Nat)) (t : Tid),
+    aacts t (weaveA order rem) = (rem t).take (order.count t) := by
+  intro order
+  induction order with
+  | nil => intro rem t; simp [weaveA, aacts]
+  | cons t' ts ih =>
+    intro rem t
+    cases hr : rem t' with
+    | nil =>
+      rw [weaveA, hr]
+      simp only
+      rw [ih rem t]
+      by_cases htt : t' = t
+      · subst htt; rw [hr]; simp
+      · rw [List.count_cons_of_ne htt]
+    | cons a r =>
+      rw [weaveA, hr]
+      simp only
+      by_cases htt : t' = t
+      · subst htt
+        have h1 := aacts_cons_self (⟨t', a⟩ : AStep Nat) (weaveA ts (fun t'' => if t'' = t' then r else rem t''))
+        simp only at h1
+        rw [h1, ih, hr, List.count_cons_self]
+        simp
+      · have h1 := aacts_cons_ne t (⟨t', a⟩ : AStep Nat) (weaveA ts (fun t'' => if t'' = t' then r else rem t'')) htt
+        rw [h1, ih, List.count_cons_of_ne htt]
+        have : t ≠ t' := fun h => htt h.symm
+        simp [this]
 
-theorem exAS_lockExcl : LockExcl (fun _ => none) (eraseS exAS) := lockExclB_sound _ _ (by decide)
+/-- … so an order in which every tid occurs as often as its transaction is long is an interleaving -/
+theorem isInterleavingA_weaveA (ops : List (List (AAct Nat))) (order : List Tid)
+    (hc : (List.range ops.length).all (fun t => decide ((ops.getD t []).length ≤ order.count t)) = true) :
+    IsInterleavingA ops (weaveA order (fun t => ops.getD t [])) := by
+  intro t
+  rw [aacts_weaveA]
+  by_cases ht : t < ops.length
+  · have := (List.all_eq_true.1 hc) t (List.mem_range.2 ht)
+    simp only [decide_eq_true_eq] at this
+    exact List.take_of_length_le this
+  · rw [List.getD_eq_getElem?_getD, List.getElem?_eq_none (Nat.le_of_not_lt ht)]
+    simp
 
-theorem exAS_truthful : Truthful exDG exDσ0 exAS := truthfulB_sound _ _ _ (by decide)
+theorem exAS_interleaving : IsInterleavingA (exDynOps.map DynRun.txnA) exAS :=
+  isInterleavingA_weaveA _ _ (by decide +kernel)
+
+theorem exAS_lockExcl : LockExcl (fun _ => none) (eraseS exAS) := lockExclB_sound _ _ (by decide +kernel)
+
+theorem exAS_truthful : Truthful exDG exDσ0 exAS := truthfulB_sound _ _ _ (by decide +kernel)
 
 /-- **all premises of (3′) hold for the instance**: a generated reader and THE generated writer -/
 theorem exAS_serializable : DynSerializable exDG (fun _ => none) exDσ0 (eraseS exAS) :=
@@ -663,19 +794,22 @@ theorem exAS_serializable : DynSerializable exDG (fun _ => none) exDσ0 (eraseS 
       · exact exR2_env)
     exAS (fun _ => none) exDσ0 exAS_interleaving exAS_lockExcl exAS_truthful
 
-example : (eraseS exAS).length = 41 ∧ (dynCommitted (eraseS exAS)).length = 39 := by decide
-example : allTwoPhaseB (eraseS exAS) = false ∧ allTwoPhaseB (dynCommitted (eraseS exAS)) = true := by decide
-example : legalDB exDG (fun _ => none) exDσ0 (eraseS exAS) = true := by decide
+-- every step of every run is scheduled (41 on today's source); the committed schedule lacks the two steps of the
+-- aborted attempt
+example : (eraseS exAS).length = exW.txnA.length + exR.txnA.length + exR2.txnA.length ∧
+    (dynCommitted (eraseS exAS)).length + 2 = (eraseS exAS).length := by decide +kernel
+example : allTwoPhaseB (eraseS exAS) = false ∧ allTwoPhaseB (dynCommitted (eraseS exAS)) = true := by decide +kernel
+example : legalDB exDG (fun _ => none) exDσ0 (eraseS exAS) = true := by decide +kernel
 -- no static guard would do: the pointer of handle `b` is read under lock 11 by the gate and under lock 10 by the
 -- one-qubit gate after the merge
-example : exDG exDσ0 1 = 11 ∧ exDG (exec (eraseS exAS) exDσ0) 1 = 10 := by decide
+example : exDG exDσ0 1 = 11 ∧ exDG (exec (eraseS exAS) exDσ0) 1 = 10 := by decide +kernel
 -- the serial order: the merge, the unrelated gate (it took its lock later), then the gate that had to retry
-example : ((dynSerialOf (eraseS exAS)).map (fun x => x.tid)).eraseDups = [0, 2, 1] := by decide
-example : Serial (dynSerialOf (eraseS exAS)) := exAS_serializable.serial (dynAllLockB_sound _ (by decide))
+example : ((dynSerialOf (eraseS exAS)).map (fun x => x.tid)).eraseDups = [0, 2, 1] := by decide +kernel
+example : Serial (dynSerialOf (eraseS exAS)) := exAS_serializable.serial (dynAllLockB_sound _ (by decide +kernel))
 -- the handle the merge re-pointed (the loop variable `q` aliasing the target handle) ends at node 0, where the
 -- conflicting gate then worked (resource 2)
 example : exec (eraseS exAS) exDσ0 1 = 0 ∧ exec (eraseS exAS) exDσ0 2 = 1 ∧ exec (dynSerialOf (eraseS exAS)) exDσ0 2 = 1 := by
-  decide
+  decide +kernel
 -- what one run contributes: its annotated transaction obeys the concrete discipline and is weakly two-phase
 example : ADisc exW.txnA ∧ WeakTP exW.txn :=
   dyn_run_premises exW exW_kind.checked exW_env.path
